@@ -15,7 +15,7 @@ func runC03(c *core.Check) {
 	c.Rule = "every MC_Dec (spec, body) pair that is JSON-expressible under the spec (HclDec!JsonExpressible) x 4 JSON encodings (duplicate property names in item order; blocks grouped as arrays of bodies; whole body as array of objects; labels merged into nested label objects plus // comment properties): hcldec.Decode of native and JSON forms give the same error-ness and RawEquals values, and Body.Content under the implied schema gives the same attributes, literal values and per-type label sequences. Non-trivial = distinct (spec, body) with at least one item"
 	c.Assumes = []string{"a body is only compared when every block of a requested type carries the requested number of labels (JSON derives label structure from the schema)", "diagnostic texts differ by design; only error-ness is compared"}
 	for _, consts := range decConfigs(c) {
-		streamTLC(c, core.TLCRun{Module: "MC_Dec", Consts: consts, Timeout: minutes(25), KeepVars: []string{"phase", "jsonok", "spec", "body"}},
+		streamTLC(c, core.TLCRun{Module: "MC_Dec", Parts: 4, Consts: consts, Timeout: minutes(25), KeepVars: []string{"phase", "jsonok", "spec", "body"}},
 			func(st core.State) { c03.Handle(c, st) })
 	}
 }
